@@ -206,8 +206,14 @@ class World:
     self.twins = {}         # dotted selector of a twin registration -> selector that owns the shared function
     self.calling = None
     self.reg_status = {}    # dotted selector -> 'ok' / exception class: every initial descriptor is valid by construction
+    self.all_desc = list(descriptors)
     for d in descriptors:
+      if d['kind'] == 'meth':
+        continue        # registered together with (just before) its class
       self.reg_status[dotted(d['sel'])] = self.register(d)
+    for d in descriptors:
+      if d['kind'] == 'meth' and dotted(d['sel']) not in self.desc:
+        self.reg_status[dotted(d['sel'])] = 'method without its class in the registry'
 
   # -- lifecycle -------------------------------------------------------------
   def _hard_reset(self):
@@ -336,9 +342,22 @@ class World:
         return delivered['value']
       return r
 
-    ns = {'_D': defaults, '_record': record}
+    ns = {'_D': defaults, '_record': record, '__name__': module or 'gvprobe'}
+    methods = [m for m in getattr(self, 'all_desc', []) if m['kind'] == 'meth' and list(m['sel'][:-1]) == list(d['sel'])] if is_cls else []
     if is_cls:
       src = ('class %s:\n  """probe class"""\n  def __init__(%s):\n    self._rec = _record(locals())\n' % (name, sig))
+      for m in methods:
+        msig, mnames, mdefaults = self._signature_src(m, with_self=True)
+        ns['_D_' + m['sel'][-1]] = mdefaults
+        src += '  def %s(%s):\n    return _mrecord(%r, locals())\n' % (m['sel'][-1], msig.replace('_D[', '_D_%s[' % m['sel'][-1]), dotted(m['sel']))
+
+      def mrecord(msel, loc):
+        world.ran = True
+        r = Result(world, msel, list(gin.current_scope()), {k: v for k, v in loc.items() if k not in ('args', 'kw')},
+                   list(loc.get('args', ())), dict(loc.get('kw', {})))
+        world.evals.append(r)
+        return r
+      ns['_mrecord'] = mrecord
     else:
       src = 'def %s(%s):\n  """probe function"""\n  return _record(locals())\n' % (name, sig)
     exec(src, ns)  # pylint: disable=exec-used
@@ -356,6 +375,11 @@ class World:
     deny = list(d['deny']) or None
     kwargs = dict(module=module or None, allowlist=allow, denylist=deny)
     try:
+      for m in methods:
+        # a method is registered on its own (inside the class body, in real code) before its class is: registering the
+        # class then renames its entry to <class selector>.<method>
+        mallow = None if list(m['allow']) == ['*'] else list(m['allow'])
+        gin.register(allowlist=mallow, denylist=list(m['deny']) or None)(getattr(obj, m['sel'][-1]))
       if d['api'] == 'configurable':
         wrapped = gin.configurable(name, **kwargs)(obj)
       elif d['api'] == 'external':
@@ -371,6 +395,11 @@ class World:
     # like real code, a probe is an attribute of the module it claims to live in (what a config with dynamic registration,
     # or the import lines of such a config string, refer to)
     self._publish(module or 'gvprobe', name, wrapped if (d['api'] == 'configurable' and wrapped is not None) else obj)
+    for m in methods:
+      self.desc[dotted(m['sel'])] = m
+      self.originals[dotted(m['sel'])] = getattr(obj, m['sel'][-1])
+      self.probes[dotted(m['sel'])] = None
+      self.reg_status[dotted(m['sel'])] = 'ok'
     return 'ok'
 
   def _publish(self, module, name, attr):
